@@ -918,6 +918,8 @@ def if_then_else(cond, truev, falsev):
             return truev() if callable(truev) else truev
         return falsev() if callable(falsev) else falsev
     if isinstance(truev, list):
+        if isinstance(falsev, (list, tuple)) and len(truev) != len(falsev):
+            raise MustRaise("selection between lists of different length")
         return [if_then_else(cond, t, f) for t, f in zip(truev, falsev)]
     if isinstance(truev, RArray) or isinstance(falsev, RArray):
         if not (isinstance(truev, RArray) and isinstance(falsev, RArray)):
